@@ -95,7 +95,8 @@ def run(tier, seed, replay=None):
             if r['code'] in (5, 10):
                 # the engine-level run only sees the class; the raising function is taken from parse_sql on the same text
                 txt_ = tokens_text(toks)
-                key_ = (r['exc'].split(':')[0], 'token-level')
+                # (the text is only approximately these tokens: when it does not reproduce the error, the site seen by the engine-level run counts)
+                key_ = (r['exc'].split(':')[0], r.get('site') or 'token-level')
                 try:
                     parse_sql(txt_, d)
                 except (ParsingException, LexError):
